@@ -53,7 +53,7 @@ func (s *Sim) opReset(op *Op) {
 	}
 	for _, o := range s.observers {
 		o.Calls = 0
-		snap.observers = append(snap.observers, &ObsInst{Spec: o.Spec, Script: o.Script})
+		snap.observers = append(snap.observers, &ObsInst{Spec: o.Spec, Script: o.Script, Invalid: o.Invalid})
 	}
 	s.resetSnap = snap
 	s.M.Reset()
